@@ -593,7 +593,7 @@ def base_table():
         'schemaValidateTypeModel': [(types,)],
         'stringCharCodeAt': [('abc', 1)],
         'stringEndsWith': [('abc', 'bc')],
-        'stringFromCharCode': [(97, 98), (8364,), ()],
+        'stringFromCharCode': [(97, 98), (8364,), (), (55357, 56832), (56832, 55357), (55357,), (128512,), (0, 1114111), (65, 55357, 56832, 66)],
         'stringIndexOf': [('abcabc', 'c'), ('abcabc', 'c', 3)],
         'stringLastIndexOf': [('abcabc', 'c'), ('abcabc', 'c', 4), ('abcabc', 'a', 2)],
         'stringLength': [('abc',)], 'stringLower': [('AbC',)],
@@ -621,13 +621,14 @@ def base_cases():
     """Deterministic list of (function, base index, k)."""
     table = base_table()
     names = functions()
-    missing = [n for n in names if n not in table]
-    unknown = [n for n in table if n not in names]
-    if missing or unknown:
-        raise HarnessError(f'C12 base table out of step with SCRIPT_FUNCTIONS: missing={missing} unknown={unknown}')
+    # A library function without a base tuple (added to the library after this table was written) is still covered by
+    # `shallow` (every argument tuple over the pool); a table entry whose function is gone is skipped. Neither is a
+    # reason to fail the check: both are reported in the family description.
+    _CACHE['no_base'] = [n for n in names if n not in table]
+    _CACHE['gone'] = [n for n in table if n not in names]
     out = []
     for n in names:
-        for b, tup in enumerate(table[n]):
+        for b, tup in enumerate(table.get(n, ())):
             out.append((n, b, count_integrals(tup)))
     return out
 
@@ -641,6 +642,8 @@ def resolve_callbacks(args):
 
 def base_tuple(case):
     """The base tuple a deep/script/grid case refers to."""
+    if case.get('var'):
+        return variadic_args(case['fn'], case['base'])
     if case['fn'] == 'datetimeNew' and isinstance(case['base'], list):
         return (2024,) + tuple(case['base'])
     return base_table()[case['fn']][case['base']]
@@ -732,6 +735,67 @@ def body_dtgrid(arg):
                 acc.outcome((tuple(comps), obs['fails'], repr(obs['state'][2][0])))
         if comps[2] == 36 and comps[5]:
             acc.sample({'call': 'datetimeNew', 'args': [2024] + comps, 'spellings': 128, 'int_spelling': brief(obs)})
+    return acc.result()
+
+
+# ----------------------------------------------------------------------------------------------------------------
+# Functions with variadic number arguments: every sequence of length 1..3 over a code pool with values that are
+# special TOGETHER (UTF-16 high surrogate followed by a low surrogate), lone surrogates, astral code points and the
+# boundaries 0 / 0x10FFFF / 0x110000 - every position respelled independently (all 2^k spellings)
+# ----------------------------------------------------------------------------------------------------------------
+
+CODE_POOL = [0, 65, 0xD7FF, 0xD800, 0xD83D, 0xDBFF, 0xDC00, 0xDE00, 0xDFFF, 0xE000, 0xFFFF, 0x10000, 0x1F600, 0x10FFFF, 0x110000]
+VARIADIC = ['stringFromCharCode', 'mathMax', 'mathMin', 'arrayNew', 'arrayPush', 'objectNew']
+
+
+def variadic_args(fn, codes):
+    if fn == 'arrayPush':
+        return ([],) + tuple(codes)
+    if fn == 'objectNew':
+        out = []
+        for i, c in enumerate(codes):
+            out.extend((f'k{i}', c))
+        return tuple(out)
+    return tuple(codes)
+
+
+def variadic_maxlen(fn, tier):
+    return 3 if fn == 'stringFromCharCode' or tier == 'thorough' else 2
+
+
+def variadic_shards(tier):
+    """(function, first code index) pairs."""
+    return [(fn, i) for fn in VARIADIC for i in range(len(CODE_POOL))]
+
+
+def variadic_size(tier):
+    n = len(CODE_POOL)
+    return sum(sum(n ** ln * 2 ** ln for ln in range(1, variadic_maxlen(fn, tier) + 1)) for fn in VARIADIC)
+
+
+def fam_variadic(arg):
+    return two_orders('variadic', body_variadic, arg)
+
+
+def body_variadic(arg):
+    tier, firsts = arg
+    acc = Acc('variadic')
+    n = len(CODE_POOL)
+    for fn, i in firsts:
+        for ln in range(1, variadic_maxlen(fn, tier) + 1):
+            for rest in itertools.product(range(n), repeat=ln - 1):
+                codes = [CODE_POOL[i]] + [CODE_POOL[j] for j in rest]
+                masks = range(2 ** ln) if _STATE['order'] == 'int-first' else range(2 ** ln - 1, -1, -1)
+                for mask in masks:
+                    acc.cases += 1
+                    obs = check_deep({'fn': fn, 'var': True, 'base': codes, 'mask': mask}, acc)
+                    if mask and obs['how'] == 'value' and obs['fails'] == 0:
+                        acc.nontrivial += 1
+                    if mask == 0:
+                        acc.outcome((fn, tuple(codes), obs['fails']))
+        if fn == 'stringFromCharCode' and CODE_POOL[i] == 0xD83D:
+            acc.sample({'call': 'stringFromCharCode', 'args': [0xD83D, 0xDE00], 'spellings': 4,
+                        'int_spelling': brief(check_deep({'fn': fn, 'var': True, 'base': [0xD83D, 0xDE00], 'mask': 0}, Acc('variadic')))})
     return acc.result()
 
 
@@ -1297,7 +1361,9 @@ def families(tier):
                f'{len(names)} functions x every argument tuple of arity 0..3 over a {n16}-value all-types pool'
                + (' + arity 4 over 8 values' if tier == 'thorough' else '') + ', int spelling vs float spelling',
                expected=len(names) * per_fn),
-        Family('deep', fam_deep, split(bases, 32), f'{len(bases)} valid base tuples ({len(names)} functions) x all 2^k spellings of their k integral numbers',
+        Family('deep', fam_deep, split(bases, 32), f'{len(bases)} valid base tuples ({len(names) - len(_CACHE["no_base"])} functions) x all 2^k spellings of their k integral numbers'
+               + (f'; without a base tuple, covered by `shallow` only: {_CACHE["no_base"]}' if _CACHE['no_base'] else '')
+               + (f'; base tuples skipped because the function is gone: {_CACHE["gone"]}' if _CACHE['gone'] else ''),
                expected=sum(2 ** k for _, _, k in bases)),
         Family('script', fam_script, split(bases, 16), f'{len(bases)} base tuples printed as BareScript source vs the direct call with ints',
                expected=len(bases)),
@@ -1310,6 +1376,9 @@ def families(tier):
                f'{len(PRINT_ALPHABET_THOROUGH if tier == "thorough" else PRINT_ALPHABET)} characters) x {len(print_numbers(tier))} numbers, int vs float', expected=nprint),
         Family('parse', fam_parse, [(tier, f) for f in split(pfirsts, 32)],
                f'jsonParse of {len(PRINT_SHAPES)} shapes x {nstr}^2 strings x {len(print_numbers(tier))} numbers, number written n and n.0, compact and spaced', expected=nprint),
+        Family('variadic', fam_variadic, [(tier, f) for f in split(variadic_shards(tier), 30)],
+               f'{VARIADIC} x every sequence of length 1..3 (stringFromCharCode; the others 1..{variadic_maxlen("mathMax", tier)}) over the {len(CODE_POOL)}-value code pool '
+               f'{[hex(c) for c in CODE_POOL]} x all 2^k spellings (every position respelled independently)', expected=variadic_size(tier)),
         Family('dtgrid', fam_dtgrid, split(grid, 32), f'datetimeNew(2024, m, d, h, mi, s, ms) over the component grid {DT_GRID_THOROUGH if tier == "thorough" else DT_GRID} '
                f'({len(grid)} tuples) x all 2^7 spellings', expected=len(grid) * 128),
     ]
@@ -1320,7 +1389,7 @@ def families(tier):
 
 
 _CHECKS = {'shallow': check_shallow, 'deep': check_deep, 'script': check_script, 'ops': check_ops, 'forindex': check_forindex,
-           'print': check_print, 'parse': check_parse, 'dtgrid': check_deep}
+           'print': check_print, 'parse': check_parse, 'dtgrid': check_deep, 'variadic': check_deep}
 
 
 def replay(family, case):
